@@ -15,7 +15,7 @@ import numpy as np
 
 from .. import gens
 from ..harness import WORK, watchdog, WatchdogTimeout, digest
-from ..monitors import StageTrace
+from ..monitors import StageTrace, thread_probe, in_process_pools
 
 MANIFEST = {
     'text': 'Held on every call executed: get_next_imf_mask and mask_sift(ret_mask_freq=True) are compared with an executable specification of the masking rule (phase grid, mask subtraction before averaging, frequency ladder, three amplitude modes, scalar/array amplitudes, zero-amplitude = plain extraction) for seeded signals x mask-frequency sources {zc, if, float, list} x nphases 1..8, and the same call is repeated with nprocesses drawn from 1..8 while worker-side wrappers inject seeded 0-3 ms delays; all worker counts must give array_equal results. Evidence lists the distinct worker counts and job->worker assignment patterns actually observed; too little schedule diversity makes the run inconclusive. OS schedules are sampled, not enumerated.',
@@ -63,7 +63,8 @@ def gen_case(rng, kind):
          'delay_seed': int(rng.integers(2 ** 31))}
     if kind == 'gnim':
         c['z'] = float(rng.uniform(0.02, 0.45))
-        c['amp'] = float(gens.pick(rng, [0.0, .1, 1, 3])) * float(x.std())
+        # (the documented mask is amp*cos(2 pi z t + phase): a negative amplitude is a mask like any other, what an amplitude sweep hands in)
+        c['amp'] = float(gens.pick(rng, [0.0, .1, 1, 3, -1, -.5])) * float(x.std())
         c['nphases'] = int(rng.integers(1, 9))
     else:
         c['mask_freqs'] = gens.pick(rng, ['zc', 'if', float(rng.uniform(.1, .4)),
@@ -73,7 +74,7 @@ def gen_case(rng, kind):
                                           tuple(float(v) for v in np.sort(rng.uniform(.01, .45, 5)))])
         c['mask_amp_mode'] = gens.pick(rng, ['abs', 'ratio_sig', 'ratio_imf'])
         c['max_imfs'] = int(rng.integers(1, 6))
-        c['mask_amp'] = float(gens.pick(rng, [1, .5, 2, 0.0])) if rng.random() < .6 else rng.uniform(.2, 2, 5)
+        c['mask_amp'] = float(gens.pick(rng, [1, .5, 2, 0.0, -1.0])) if rng.random() < .6 else rng.uniform(.2, 2, 5) * rng.choice([1, 1, 1, -1], 5)
         if not np.isscalar(c['mask_amp']) and rng.random() < .4:
             c['mask_amp'][int(rng.integers(0, 5))] = 0.0     # a layer without a mask in the middle of the ladder
         c['mask_step_factor'] = float(gens.pick(rng, [2, 3, 1.5]))
@@ -241,7 +242,34 @@ def make_trace(ctx):
     return tr, tdir
 
 
+def thread_cases(seed):
+    """Masked extractions / masked sifts of equally long channels with the same number of phases and different masks, from
+    different threads at the same time (the pools are thread pools of this process while the probe runs)."""
+    from emd import sift as S
+    r = np.random.default_rng(seed)
+    n = int(gens.pick(r, [300, 1000, 3000]))
+    t = np.arange(n)
+    nph = int(gens.pick(r, [1, 3, 4]))
+    calls = []
+    for k in range(4):
+        ch = np.sin(2 * np.pi * t / float(r.uniform(8, 14))) + .5 * np.sin(2 * np.pi * t / float(r.uniform(40, 90))) + .2 * r.standard_normal(n)
+        z, amp = float(r.uniform(.05, .4)), float(r.uniform(.3, 2))
+        if k % 2:
+            calls.append((lambda v, zz, aa: (lambda: S.get_next_imf_mask(v.copy()[:, None], zz, aa, nphases=nph)[0]))(ch, z, amp))
+        else:
+            calls.append((lambda v, zz: (lambda: S.mask_sift(v.copy(), max_imfs=2, mask_freqs=[zz, zz / 3], nphases=nph)))(ch, z))
+    return calls, {'seed': int(seed), 'n': n, 'nphases': nph}
+
+
+def thread_check(ctx, seed):
+    calls, tcase = thread_cases(seed)
+    with in_process_pools():
+        return thread_probe(ctx, 'get_next_imf_mask/mask_sift (%d samples, %d phases)' % (tcase['n'], tcase['nphases']), calls, 6 if tcase['n'] > 1000 else 15, tcase)
+
+
 def run_shard(ctx):
+    if ctx.shard % 2 == 1:
+        thread_check(ctx, int(ctx.rng.integers(1 << 30)))
     rng = ctx.rng
     n = NCASES[ctx.tier] // ctx.nshards
     tr, tdir = make_trace(ctx)
@@ -299,6 +327,11 @@ def finalize(agg, tier):
 
 
 def replay(ctx, case):
+    if case.get('kind') == 'threads':
+        for _ in range(5):
+            if not thread_check(ctx, case['seed']):
+                break
+        return
     tr, tdir = make_trace(ctx)
     with tr:
         (check_gnim if case['kind'] == 'gnim' else check_mask_sift)(ctx, tr, case)
